@@ -288,6 +288,7 @@ func (l *Lexer) scanAccount() Token {
 	start := l.pos
 	startPos := l.position()
 	lastNonSpace := start
+	endPos := startPos
 
 	for l.pos < len(l.input) {
 		r, size := utf8.DecodeRuneInString(l.input[l.pos:])
@@ -296,8 +297,7 @@ func (l *Lexer) scanAccount() Token {
 			if l.pos+1 < len(l.input) && l.input[l.pos+1] == ' ' {
 				break
 			}
-			l.pos += size
-			l.column++
+			l.step(r, size)
 			continue
 		}
 
@@ -305,13 +305,14 @@ func (l *Lexer) scanAccount() Token {
 			break
 		}
 
-		l.pos += size
-		l.column++
+		l.step(r, size)
 		lastNonSpace = l.pos
+		endPos = l.position()
 	}
 
+	// the token ends with the last character of the name, not with a blank that follows it
 	value := l.input[start:lastNonSpace]
-	return Token{Type: TokenAccount, Value: value, Pos: startPos, End: l.position()}
+	return Token{Type: TokenAccount, Value: value, Pos: startPos, End: endPos}
 }
 
 // isAccountTerminator returns true for characters that end account names in hledger format.
@@ -371,8 +372,7 @@ done:
 func (l *Lexer) scanCurrencySymbol() Token {
 	startPos := l.position()
 	r, size := utf8.DecodeRuneInString(l.input[l.pos:])
-	l.pos += size
-	l.column++
+	l.step(r, size)
 	return Token{Type: TokenCommodity, Value: string(r), Pos: startPos, End: l.position()}
 }
 
@@ -545,8 +545,17 @@ func (l *Lexer) peekRune() rune {
 
 func (l *Lexer) advance() {
 	if l.pos < len(l.input) {
-		_, size := utf8.DecodeRuneInString(l.input[l.pos:])
-		l.pos += size
+		r, size := utf8.DecodeRuneInString(l.input[l.pos:])
+		l.step(r, size)
+	}
+}
+
+// step moves over one character. Columns count UTF-16 code units, the unit of LSP positions:
+// a character outside the basic multilingual plane takes two.
+func (l *Lexer) step(r rune, size int) {
+	l.pos += size
+	l.column++
+	if r >= 0x10000 {
 		l.column++
 	}
 }
